@@ -472,11 +472,12 @@ func Canon(st *State, m Model) string {
 	}
 	var b strings.Builder
 	for _, e := range st.Ents {
-		mode, t := e.Mode, e.T
+		mode, rawMode, t := e.Mode, e.RawMode, e.T+"/"+e.RawT
 		if e.Dir {
 			mode &^= 0777
+			rawMode &^= 0777
 		}
-		fmt.Fprintf(&b, "%s|d=%v|m=%o|t=%s|c=%s|r=%s|l=%s|n=%d/%d|w=%v\n", e.Path, e.Dir, mode, t, strings.Join(e.Chunks, ","), strings.Join(e.Raw, ","), e.Link, e.Counter, e.RawCnt, e.Walked)
+		fmt.Fprintf(&b, "%s|d=%v|m=%o/%o|t=%s|c=%s|r=%s|l=%s|n=%d/%d|w=%v\n", e.Path, e.Dir, mode, rawMode, t, strings.Join(e.Chunks, ","), strings.Join(e.Raw, ","), e.Link, e.Counter, e.RawCnt, e.Walked)
 	}
 	for _, k := range st.KVs {
 		t := "n"
